@@ -587,6 +587,7 @@ pub fn apply<E: Env>(me: u8, op: &Op, slots: &mut Slots, env: &mut E) -> bool {
                 // The temporary owns its own handle; it is gone again at the
                 // end of each iteration, so the handle count is unchanged.
                 let q = instant(t).to_zoned(p.time_zone().clone());
+                env.handles(x.zone, 1);
                 for u in units {
                     if quietly(|| {
                         let _ = p.until((u, &q));
@@ -599,6 +600,13 @@ pub fn apply<E: Env>(me: u8, op: &Op, slots: &mut Slots, env: &mut E) -> bool {
                     }
                 }
                 drop(q);
+                env.handles(x.zone, -1);
+                // A lost count may already have freed the zone `p` points
+                // into: look before touching it again.
+                if !env.checkpoint("zoned_sweep") {
+                    return false;
+                }
+                let Some(Slot { val: Val::Zoned(_), .. }) = slots[ix(*a)] else { return false };
             }
             for _ in 0..panics {
                 env.api_panic("zoned_sweep");
